@@ -75,6 +75,7 @@ func dsConfig(sc *gen.Scenario) simstore.DSConfig {
 		FaultRate:  float64(sc.Knob("fault_rate_pm", 30)) / 1000.0,
 		MaxLatency: time.Duration(sc.Knob("max_latency_ns", 20000)),
 		MaxFaults:  int(sc.Knob("max_faults", 3)),
+		TimeoutErrs: sc.Knob("fault_timeouts", 0) == 1,
 	}
 }
 
